@@ -125,7 +125,12 @@ pub fn handles_case(d: &[u8]) -> Result<(), String> {
         let embedded = if which % 8 == 0 { Some(b.u16()) } else { None };
         let mut script = vec![];
         while b.left() >= 3 && script.len() < 40 {
-            script.push(if b.u8() % 5 < 3 { ROp::Read(b.u8(), b.u16()) } else { ROp::Seek(whence(&mut b), off(&mut b)) });
+            script.push(match b.u8() % 12 {
+                0..=5 => ROp::Read(b.u8(), b.u16()),
+                6..=9 => ROp::Seek(whence(&mut b), off(&mut b)),
+                10 => ROp::ReadToEnd,
+                _ => ROp::ReadExact(b.u8(), b.u16()),
+            });
         }
         c14::test_read(&c14::ReadCase { cfg, embedded, content, in_lower, script }, &mut st, false).map_err(|f| f.message)
     } else {
